@@ -74,6 +74,7 @@ func init() {
 	engine.RegisterSignature("c17-direct-eval-identity", sigDirectEvalIdentity)
 	engine.RegisterSignature("c17-bridged-func-runtime", sigBridgedFuncRuntime)
 	engine.RegisterSignature("c17-goslice-length-shared", sigGoSliceLength)
+	engine.RegisterSignature("c17-bound-args-capacity", sigBoundArgsCapacity)
 }
 
 // ---------------------------------------------------------------------------
@@ -1171,4 +1172,19 @@ func sigGoSliceLength(m *engine.Mismatch) bool {
 		return len(plus) == 0 && allMatch(minus, sliceElemLine, 2)
 	}
 	return false
+}
+
+// sigBoundArgsCapacity: the bound-function call path appends the call's arguments into
+// the spare capacity of the shared bound-argument slice, so a re-entrant call of the same
+// bound function overwrites the outer call's arguments on a runtime that built the bound
+// function itself (the replay: Math.max sees 99) but not on a copy, whose bound-argument
+// list the cloner reallocated with exact capacity (5). Accepts exactly: mutation
+// reentrant.call on C or C2, result "99|<rest>" on the replay and "5|<same rest>" on the copy.
+func sigBoundArgsCapacity(m *engine.Mismatch) bool {
+	if m.Family != "isolate" || !hasIngredient(m, "reentrant") || m.Aux["mutation_name"] != "reentrant.call" ||
+		!strings.HasSuffix(m.Key, "#result") || (m.Aux["side"] != "C" && m.Aux["side"] != "C2") {
+		return false
+	}
+	return strings.HasPrefix(m.Expected, "s:99|") && strings.HasPrefix(m.Observed, "s:5|") &&
+		strings.TrimPrefix(m.Expected, "s:99|") == strings.TrimPrefix(m.Observed, "s:5|")
 }
